@@ -3,7 +3,7 @@
     Final statements only; the proofs are in SFV.NanBox.NanBoxProofs (and NanBoxSweep). *)
 From Coq Require Import NArith List Bool.
 From SFV Require Import Gen.NanBoxGen Base.F64 NanBox.NanBox NanBox.NanBoxProofs NanBox.NanBoxSweep
-  Base.RsPrelude NanBox.NanBoxExt Gen.NanBoxFnGen NanBox.NanBoxGenEq.
+  Base.RsPrelude NanBox.NanBoxExt Gen.NanBoxFnGen NanBox.NanBoxGenEq Gen.ApiLenGen Api.ApiLenGenEq.
 Import ListNotations.
 Open Scope N_scope.
 
@@ -317,3 +317,28 @@ Theorem C06_code_conv_meaning : forall d,
                | DOk (VError c) => GOk (Some (ValueRef_Error c)) | DErr => GOk None | DPanic => GPanic 0
                end.
 Proof. intros [[]| |]; reflexivity. Qed.
+
+(** * The consumer side: the accessors of [api::Value] that only look at the handle ARE the code (T8)
+
+    [Value::as_bool], [is_null], [as_number], [is_obj], [is_array], [as_error] of api/src/lib.rs, regenerated into
+    Gen/ApiLenGen.v: each is the regenerated [NanBox::try_decode] followed by a projection, for EVERY bit pattern at both
+    pointer widths (the oracle [q] is the foreign length query, which these accessors never call) -- so what a guest sees
+    through the API for a handle is what the theorems above say [try_decode] returns for it, never a crash. *)
+Theorem C06_code_value_as_bool : forall trap W, W = 32 \/ W = 64 -> forall (q : N -> N) bits, bits < 2 ^ (2 * W) ->
+  Value_as_bool W trap q (mkValue bits) = GOk (match try_decode W bits with DOk (VBool b) => Some b | _ => None end).
+Proof. exact gen_as_bool_eq. Qed.
+Theorem C06_code_value_is_null : forall trap W, W = 32 \/ W = 64 -> forall (q : N -> N) bits, bits < 2 ^ (2 * W) ->
+  Value_is_null W trap q (mkValue bits) = GOk (match try_decode W bits with DOk VNull => true | _ => false end).
+Proof. exact gen_is_null_eq. Qed.
+Theorem C06_code_value_as_number : forall trap W, W = 32 \/ W = 64 -> forall (q : N -> N) bits, bits < 2 ^ (2 * W) ->
+  Value_as_number W trap q (mkValue bits) = GOk (match try_decode W bits with DOk (VNumber n) => Some n | _ => None end).
+Proof. exact gen_as_number_eq. Qed.
+Theorem C06_code_value_is_obj : forall trap W, W = 32 \/ W = 64 -> forall (q : N -> N) bits, bits < 2 ^ (2 * W) ->
+  Value_is_obj W trap q (mkValue bits) = GOk (match try_decode W bits with DOk (VObject _ _) => true | _ => false end).
+Proof. exact gen_is_obj_eq. Qed.
+Theorem C06_code_value_is_array : forall trap W, W = 32 \/ W = 64 -> forall (q : N -> N) bits, bits < 2 ^ (2 * W) ->
+  Value_is_array W trap q (mkValue bits) = GOk (match try_decode W bits with DOk (VArray _ _) => true | _ => false end).
+Proof. exact gen_is_array_eq. Qed.
+Theorem C06_code_value_as_error : forall trap W, W = 32 \/ W = 64 -> forall (q : N -> N) bits, bits < 2 ^ (2 * W) ->
+  Value_as_error W trap q (mkValue bits) = GOk (match try_decode W bits with DOk (VError c) => Some c | _ => None end).
+Proof. exact gen_as_error_eq. Qed.
